@@ -267,8 +267,13 @@ func c17XMLAttr(c *engine.Ctx, in []byte, args map[string]string) {
 
 func c17CDATA(c *engine.Ctx, in []byte, args map[string]string) {
 	var buf []byte
-	if args["buf"] == "large" {
+	switch args["buf"] {
+	case "large":
 		buf = make([]byte, 0, 256)
+	case "exact":
+		buf = make([]byte, 0, len(in)) // room for the text as it is, not for its escaped form
+	case "small":
+		buf = make([]byte, 0, 4)
 	}
 	arr, b := spareCopy(in)
 	pr := append([]byte{}, arr...)
@@ -334,7 +339,7 @@ func c17Work(c *engine.Ctx) {
 	attrAtoms := engine.Atoms("a", " ", "'", "\"", "<", "=", ">", "`", "&", "#", "3", "9", ";", "\t", "/", "é", "\f", "\n", "\v", "\r")
 	enum("html-attr", attrAtoms, c.Pick(4, 5), hargs)
 	enum("xml-attr", attrAtoms, c.Pick(5, 6), []map[string]string{{"buf": "nil"}, {"buf": "small"}, {"buf": "large"}})
-	enum("cdata", engine.Atoms("a", "<", "&", "]", ">", "l", "t", ";"), c.Pick(7, 8), []map[string]string{{"buf": "nil"}, {"buf": "large"}})
+	enum("cdata", engine.Atoms("a", "<", "&", "]", ">", "l", "t", ";"), c.Pick(7, 8), []map[string]string{{"buf": "nil"}, {"buf": "large"}, {"buf": "exact"}, {"buf": "small"}})
 }
 
 func c17Finish(c *engine.Ctx, cov map[string]interface{}) string {
